@@ -99,6 +99,8 @@ package parser
 
 // A frame length handed to DecodeWithLen becomes an allocation: it must not be negative
 // (make would panic) and the allocation is exactly that length. The packet is decode() of the next len input bytes.
+// The buffer is allocated up front with the DECLARED length (C11.alloc.exact): the caller owes a bound on it - the
+// WebTransport reader bounds it by its limit, or by 1 MiB when it has none (C11.wt.next.upfront.allocation.bounded.also.without.a.limit).
 //@ func DecodeWithLen
 //@   requires len >= 0 [C11.alloc.nonneg]
 //@   requires r != nil && inpos(r) >= 0
